@@ -161,4 +161,14 @@ fn remove_body(&self, sources: &mut SourceList<'l, Data>, poll: &mut Poll, extra
             },
         },
 //@ endslice
+// the four operations as callable items (signature-only; their bodies are proved above as slices): lets a caller inside the
+// unit -- e.g. an edited dispatch_events that goes through the handle -- be type-checked; nothing is assumed about them
+//@ item src/loop_logic.rs / impl LoopHandle<'l, Data> / fn enable props=C07 sigonly ret=r
+//@ enditem
+//@ item src/loop_logic.rs / impl LoopHandle<'l, Data> / fn update props=C09 sigonly ret=r
+//@ enditem
+//@ item src/loop_logic.rs / impl LoopHandle<'l, Data> / fn disable props=C07 sigonly ret=r
+//@ enditem
+//@ item src/loop_logic.rs / impl LoopHandle<'l, Data> / fn remove props=C06 sigonly
+//@ enditem
 }
